@@ -223,6 +223,14 @@ func (a *batchConn) batchSendLoop(cfg config.TiKVClient) {
 			a.inspectPendingRequests(headRecvTime)
 			return
 		}
+		select {
+		case <-a.closed:
+			// Entries that are still queued here (e.g. behind the concurrency limit) can never be sent: fail
+			// them instead of going round for ever; async entries have no caller that would cancel them.
+			a.reqBuilder.cancel(errors.New("batchConn closed"))
+			return
+		default:
+		}
 
 		// curl -X PUT -d 'return(true)' http://0.0.0.0:10080/fail/tikvclient/mockBlockOnBatchClient
 		if val, err := util.EvalFailpoint("mockBlockOnBatchClient"); err == nil {
